@@ -20,6 +20,9 @@ import (
 )
 
 func lowerName(name string) (string, error) {
+	if name == "" {
+		return name, nil
+	}
 	if name[0] >= 'a' && name[0] <= 'z' {
 		return name, nil
 	}
@@ -33,6 +36,9 @@ func lowerName(name string) (string, error) {
 }
 
 func capitalizeName(name string) string {
+	if name == "" {
+		return name
+	}
 	if name[0] >= 'A' && name[0] <= 'Z' {
 		return name
 	}
